@@ -66,6 +66,20 @@ def predict_rule(ck, prog):
         c = stack.pop()
         bodies.append(c)
         stack.extend(prog.closures_of.get(c.path, []))
+    # private per-row helpers of the same type (`fn predict_row(&self, row) -> T`) called from predict or its closures
+    helpers = []
+    for bd in list(bodies):
+        for bb, t in bd.calls():
+            f = t.get("f")
+            cal = prog.bodies.get(f.get("resolved") or "") or prog.bodies.get(f["path"]) if f else None
+            if cal is not None and cal is not b and cal.path.startswith("naive_bayes::BaseNaiveBayes") and cal not in bodies:
+                helpers.append(cal)
+                bodies.append(cal)
+                stack = list(prog.closures_of.get(cal.path, []))
+                while stack:
+                    c = stack.pop()
+                    bodies.append(c)
+                    stack.extend(prog.closures_of.get(c.path, []))
     hits = []
     for bd in bodies:
         rs = Resolver(bd)
@@ -128,7 +142,7 @@ def predict_rule(ck, prog):
         while v[0] == "call" and v[1] in ("unwrap",) and v[2]:
             v = v[2][0]
         return v[0] == "field" and v[2] == "0" and any(s[0] == "call" and s[1].endswith("Iterator::max_by") for s in subterms(v[1]))
-    ok_out = is_winner_label(rs.local(0)) if bd.kind == "Closure" else False
+    ok_out = is_winner_label(rs.local(0)) if (bd.kind == "Closure" or bd in helpers) else False
     for bb3, t3 in bd.calls():
         f3 = t3.get("f")
         if f3 and f3["path"].endswith("Vec::<T, A>::push") and is_winner_label(rs.operand(t3["args"][1])):
